@@ -72,7 +72,7 @@ def gen_case(rng, i):
               "subsample": [None, 0.5, "fast"][(i // 3) % 3], "lbp": lbp, "ubp": ubp, "custom": custom,
               "seed": int(rng.integers(1000)), "max_iter": int(rng.integers(4, 16)),
               "pass_mask": bool((mk == "random" or rng.integers(2)) and not default_layers),
-              "default_layers": default_layers})
+              "default_layers": default_layers, "mask_as_list": bool(rng.integers(3) == 0)})
     return s
 
 
@@ -139,7 +139,12 @@ def chk_case(inp, c):
     est = gen.live_or_new(c, dreye, inp)
     if inp.get("default_layers"):
         c.cell("layers=default(None)")
-    kw = dict(n_layers=(None if inp.get("default_layers") else L), mask=(mask.copy() if inp["pass_mask"] else None),
+    mask_arg = None
+    if inp["pass_mask"]:
+        # a 0/1 mask is naturally written as a nested list; as ndarray it is handed over as float or int64 by the harness
+        mask_arg = mask.astype(int).tolist() if inp.get("mask_as_list") else mask.copy()
+        c.cell("mask-arg=" + ("list" if inp.get("mask_as_list") else "array"))
+    kw = dict(n_layers=(None if inp.get("default_layers") else L), mask=mask_arg,
               lbp=inp["lbp"], ubp=inp["ubp"],
               max_iter=inp["max_iter"], seed=inp["seed"], subsample=sub, equal_l1norm_constraint=equal)
     runtime.EVENTS.clear()
